@@ -6,10 +6,99 @@
 
 namespace hz {
 
+// OnlyExistKeys leg: the outcome for a key may depend on the prior key set of the target, never on the prior values. Two targets
+// with the same keys and different values receive the same history of documents, which may repeat keys (the document is
+// written with keys "m<d>a"/"m<d>b" and both are then renamed to "m<d>x" in the bytes: same length, so every format stays
+// well-formed); afterwards every key that occurred in the last document that mentioned it must hold the same value in both targets,
+// that value must be one the document gives for the key, and no key may have been added or removed.
+static Outcome OnlyExistLeg(RunCtx& ctx, int archive)
+{
+	Source& s = ctx.src;
+	ArchiveOps& ops = GetOps(archive);
+	const std::string an = ArchiveName(archive);
+	SerializationOptions o = GenLoadOptions(s, sim::L_CFG, archive);
+	Outcome out;
+	out.cfgKey = an + "|onlyexist";
+	ctx.count("leg.onlyexist");
+	std::map<std::string, int32_t> a, b;
+	const uint32_t nKeys = 1 + s.draw(sim::L_PROG, 6);
+	for (uint32_t i = 0; i < nKeys; ++i) { const std::string k = "m" + std::to_string(s.draw(sim::L_PROG, 8)) + "x"; a[k] = 1000 + static_cast<int32_t>(i); b[k] = 2000 + static_cast<int32_t>(i); }
+	size_t memberBit = 0;
+	while (std::string(kZooOrder[memberBit]) != "mapOnlyExist") ++memberBit;
+	const auto a0 = a;
+	const auto b0 = b;
+	std::map<std::string, std::vector<int32_t>> lastDocValues;   // key -> the values the last document that has the key gives for it
+	const uint32_t nDocs = 1 + s.draw(sim::L_PROG, 3);
+	std::string plan;
+	for (uint32_t d = 0; d < nDocs; ++d)
+	{
+		Zoo docZ;
+		docZ.skipIntKeyMaps = archive == A_XML;
+		docZ.saveMask = 1ull << memberBit;
+		const uint32_t n = s.draw(sim::L_DOC, 10);
+		for (uint32_t i = 0; i < n; ++i)
+		{
+			const std::string k = "m" + std::to_string(s.draw(sim::L_DOC, 8)) + (s.chance(sim::L_DOC, 1, 2) ? "a" : "b");
+			docZ.mapOnlyExist[k] = static_cast<int32_t>(d * 100 + i + 1);
+		}
+		std::map<std::string, std::vector<int32_t>> thisDoc;
+		for (auto& kv : docZ.mapOnlyExist)
+		{
+			const std::string k = kv.first.substr(0, 2) + "x";
+			thisDoc[k].push_back(kv.second);
+			plan += k + "=" + std::to_string(kv.second) + " ";
+		}
+		plan += "| ";
+		for (auto& kv : thisDoc) lastDocValues[kv.first] = kv.second;
+		std::string bytes;
+		CallResult sv = SaveZooWith(ops, docZ, bytes, o, OutCfg{});
+		if (!sv.ok) return out;
+		for (size_t i = 0; i + 2 < bytes.size(); ++i)
+		{
+			if (bytes[i] == 'm' && bytes[i + 1] >= '0' && bytes[i + 1] <= '9' && (bytes[i + 2] == 'a' || bytes[i + 2] == 'b')) bytes[i + 2] = 'x';
+		}
+		for (int which = 0; which < 2; ++which)
+		{
+			Zoo target;
+			target.skipIntKeyMaps = archive == A_XML;
+			target.useLoadModes = true;
+			target.mapOnlyExist = which ? b : a;
+			InCfg c;
+			if (s.chance(sim::L_IO, 1, 2)) { c = DrawStreamCfg(s, sim::L_IO); c.seekable = true; }
+			sim::steps_begin(3000ull * (bytes.size() + 8192) * 16);
+			const CallResult r = LoadZooWith(ops, target, bytes, o, c);
+			sim::steps_end();
+			if (!r.isStd) return Violation("WRONG_EXCEPTION", "archive=" + an + " leg=onlyexist", "non-std exception");
+			if (!r.ok) return Violation("WRONG_EXCEPTION", "archive=" + an + " leg=onlyexist what=load_failed exc=" + r.cat, "loading a document with repeated keys failed: " + r.cat + " (" + r.what + ")");
+			(which ? b : a) = target.mapOnlyExist;
+		}
+	}
+	ctx.note("only-exist-keys leg: archive=" + an + " keys=" + std::to_string(a0.size()) + " documents: " + plan);
+	const std::string tags = "archive=" + an + " leg=onlyexist";
+	if (a.size() != a0.size() || b.size() != b0.size()) return Violation("WRONG_VALUE", tags + " what=key_set", "OnlyExistKeys changed the key set of the target");
+	for (auto& kv : a0)
+	{
+		const std::string& k = kv.first;
+		if (!a.count(k) || !b.count(k)) return Violation("WRONG_VALUE", tags + " what=key_set", "OnlyExistKeys removed key " + k);
+		auto it = lastDocValues.find(k);
+		if (it == lastDocValues.end())
+		{
+			if (a[k] != a0.at(k) || b[k] != b0.at(k)) return Violation("WRONG_VALUE", tags + " what=untouched_changed", "key " + k + " is in no document but its value changed");
+			continue;
+		}
+		if (a[k] != b[k]) return Violation("WRONG_VALUE", tags + " what=depends_on_prior_value", "key " + k + " ends as " + std::to_string(a[k]) + " in one target and " + std::to_string(b[k]) + " in the other: the result depends on the prior value (documents: " + plan + ")");
+		if (std::find(it->second.begin(), it->second.end(), a[k]) == it->second.end()) return Violation("WRONG_VALUE", tags + " what=not_from_document", "key " + k + " ends as " + std::to_string(a[k]) + ", which the last document that has the key does not give for it (documents: " + plan + ")");
+	}
+	out.nontrivial = true;
+	sim::probe("onlyexist-repeated-keys");
+	return out;
+}
+
 Outcome RunC18(RunCtx& ctx)
 {
 	Source& s = ctx.src;
 	const int archive = static_cast<int>(s.draw(sim::L_CFG, A_COUNT));
+	if (archive != A_CSV && s.chance(sim::L_CFG, 1, 16)) return OnlyExistLeg(ctx, archive);
 	ArchiveOps& ops = GetOps(archive);
 	const std::string an = ArchiveName(archive);
 	SerializationOptions o = GenLoadOptions(s, sim::L_CFG, archive);
@@ -30,6 +119,7 @@ Outcome RunC18(RunCtx& ctx)
 	// 1 history in 8 moves one sequence member between small sizes and sizes around the estimate cap (1023..2049 elements)
 	zg.jumboMember = DrawJumbo(s, sim::L_CFG, 8);
 	zg.jumboOneIn = 2;
+	zg.altDocOneIn = 5;   // documents with null elements in sets (written by a class version that held vectors of optionals)
 	if (zg.jumboMember >= 0 && !csv) { ctx.count(std::string("jumbo.") + JumboName(zg.jumboMember)); sim::probe("history-with-container-above-estimate-cap"); }
 	Outcome out;
 	out.cfgKey = an + (withAborts ? "|aborts" : "|clean") + (loadModes ? "|modes" : "") + "|" + std::to_string(nLoads);
